@@ -121,48 +121,7 @@ func (ex *Exec) callWithContract(fi *FuncInfo, blk *Block, recv Value, args []Va
 		}
 		return nil, false
 	}
-	ex.usedContracts[key] = true
-	// havoc results, assume ensures
-	sig := fi.Obj.Type().(*types.Signature)
-	var res []Value
-	for i := 0; i < sig.Results().Len(); i++ {
-		res = append(res, ex.havocValue(blk.Key()+".ret", sig.Results().At(i).Type(), st))
-	}
-	// havoc what the contract says is modified
-	ex.applyModifies(fi, blk, recv, args, st)
-	saveOld := ex.oldState
-	pre := st.fork(st.pc)
-	ex.oldState = pre
-	resG := res
-	if len(blk.Ghosts) > 0 {
-		// universally quantified postcondition variables: one arbitrary instance is assumed
-		resG = append([]Value(nil), res...)
-		for _, c := range blk.Clauses {
-			if c.Kind == "ensures" {
-				esig := ex.clauseSig(fi, c)
-				for gi, g := range blk.Ghosts {
-					pt := esig.Params().At(esig.Params().Len() - len(blk.Ghosts) + gi).Type()
-					resG = append(resG, ex.havocValue(blk.Key()+".ghost."+g[0], pt, st))
-				}
-				break
-			}
-		}
-	}
-	for _, c := range blk.Clauses {
-		if c.Kind != "ensures" {
-			continue
-		}
-		g := ex.callClause(fi, c, recv, args, resG, st, site)
-		ex.assume(st, g)
-	}
-	ex.oldState = saveOld
-	switch len(res) {
-	case 0:
-		return nil, true
-	case 1:
-		return res[0], true
-	}
-	return &TupleV{Vals: res}, true
+	return ex.contractCall(blk, recv, nil, args, resultTypes(fi), st, site), true
 }
 
 func (ex *Exec) clauseSig(fi *FuncInfo, c *Clause) *types.Signature {
@@ -255,7 +214,15 @@ func (ex *Exec) havocValue(prefix string, t types.Type, st *State) Value {
 		}
 		return av
 	case *types.Interface:
+		if _, _, named := namedKey(t); named {
+			return ex.abstractValue(prefix, t, true)
+		}
 		return &OpaqueV{What: prefix, IsNil: ts.Fresh(prefix+".isnil", BoolSort)}
+	case *types.Signature:
+		return ex.abstractValue(prefix, t, true)
+	case *types.Map:
+		ks, vs := ex.mapSorts(u)
+		return &MapV{Val: ts.Fresh(prefix, ArraySort(ks, vs)), T: u}
 	case *types.Pointer:
 		if hc := ex.heapClassOf(u.Elem()); hc != nil {
 			return ex.heapHavocRef(st, hc, prefix)
@@ -298,6 +265,10 @@ func (ex *Exec) callExternal(f *FuncV, args []Value, st *State, site *ast.CallEx
 	case "math/bits.Len64":
 		ex.assumptions["math/bits functions modelled by their documented meaning"] = true
 		return ts.BVBin(OpBVSub, ts.BV(64, 64), ts.LeadingZeros(arg(0), 64))
+	case "github.com/seekerror/stdlib/pkg/util/contextx.IsCancelled":
+		ex.cancelModel = true
+		ex.assumptions["cancellation is a ghost flag that may rise at any poll or call and never falls (contextx.IsCancelled reads it)"] = true
+		return ex.pollCancelled(st)
 	case "fmt.Errorf", "errors.New":
 		ex.assumptions["fmt.Errorf/errors.New return a non-nil error whose text is not modelled"] = true
 		return &OpaqueV{What: "error", IsNil: ts.False()}
